@@ -10,6 +10,8 @@ import time
 VERIF = os.path.dirname(os.path.dirname(os.path.abspath(__file__)))
 REPO = os.environ.get("FLIPDOT_REPO", "/repo")
 BUILD = os.environ.get("VERIF_BUILD", os.path.join(VERIF, "build"))
+# where evidence/ and replays/ are written (overridden when trying seeded changes on scratch trees)
+OUT = os.environ.get("VERIF_OUT", VERIF)
 KANI_VERSION = "0.68.0"
 NCPU = os.cpu_count() or 4
 
